@@ -163,7 +163,7 @@ func verifParse(s string) *net.IPNet {
 
 // VerifC01Derivation: for every shared secret, library version 2-4, family,
 // transport (min; prefix with two ids; port randomisation on/off) and a subnet
-// configuration of two weighted groups (arbitrary 8-bit weights incl. ties,
+// configuration of two (thorough tier: three) weighted groups (arbitrary 8-bit weights incl. ties,
 // arbitrary port-randomisation flags) the station's registration, the client
 // library's own derivation, and the published algorithm written down above all
 // give the same seed, phantom address, destination port and connection tag.
@@ -174,11 +174,18 @@ func VerifC01Derivation() {
 	libver := uint32(2 + k%3)
 	v6 := (k/3)%2 == 1
 	isPrefix := k/6 == 1
-	const rounds = 2
+	rounds := 2
+	if verifnd.Thorough() {
+		rounds = 3 // thorough: one more rejection round per draw
+	}
 	verifnd.LoopBound("crypto/rand.Int", rounds)
 	secret := verifnd.Bytes("secret", 32)
 	// ---- subnet configuration (ClientConf generation 1)
 	specs := [][]string{{"192.0.2.0/24"}, {"198.51.100.0/28", "203.0.113.0/24", "2001:db8:2::/96"}}
+	if verifnd.Thorough() {
+		// thorough: a third group (three-way weight ties and orders, a /32 and a /128)
+		specs = append(specs, []string{"192.0.2.255/32", "2001:db8:3::1/128", "2001:db8:4::/64"})
+	}
 	var pbGroups []*pb.PhantomSubnets
 	var groups []refGroup
 	tot := uint64(0)
